@@ -180,4 +180,82 @@ theorem found_of_holds {s : Store} (hr : running s = true) {g : Nat} {d : Doc} {
   simp only [segEvent, isCached_setCached_same _ _ _ _ hflag]
   exact List.mem_append_right _ (covered_matchIds hcov hm)
 
+/-! ### a successful load needs every component complete -/
+
+theorem readAll_ok_cuts (tpl : Tpl) (files : List (Kind × File)) (T : Shared) (pc : Bool)
+    (h : (readAll tpl T pc files).1 = true) :
+    pc = false ∧ ∀ kf ∈ files, kf.2.cut ≠ .data ∧ kf.2.cut ≠ .trailer := by
+  induction files generalizing T pc with
+  | nil =>
+    simp only [readAll] at h
+    exact ⟨by simpa using h, fun kf hkf => by cases hkf⟩
+  | cons kf r ih =>
+    obtain ⟨k, f⟩ := kf
+    simp only [readAll] at h
+    split at h
+    · cases h
+    · rename_i hpc
+      split at h
+      · cases h
+      · rename_i T' hT'
+        obtain ⟨htr, hrest⟩ := ih T' _ h
+        have hnd : f.cut ≠ .data := by
+          intro hd; unfold readComp at hT'; simp [hd] at hT'
+        have hnt : f.cut ≠ .trailer := by
+          intro ht; simp [ht] at htr
+        refine ⟨by simpa using hpc, ?_⟩
+        intro kf' hkf'
+        rcases List.mem_cons.mp hkf' with rfl | hkf'
+        · exact ⟨hnd, hnt⟩
+        · exact hrest kf' hkf'
+
+theorem openable_find (fs : FS) (n : Name) (f : File) (h : openable fs n = some f) :
+    FS.find fs n = some f ∧ f.cut ≠ .header := by
+  unfold openable at h
+  split at h
+  · rename_i g hg
+    split at h
+    · cases h
+    · rename_i hc; injection h with h; subst h; exact ⟨hg, hc⟩
+  · cases h
+
+theorem openAll_spec (fs : FS) (id : Nat) (ks : List Kind) (files : List (Kind × File))
+    (h : openAll fs id ks = some files) :
+    ∀ k ∈ ks, ∃ f, (k, f) ∈ files ∧ FS.find fs (.seg k id) = some f ∧ f.cut ≠ .header := by
+  induction ks generalizing files with
+  | nil => intro k hk; cases hk
+  | cons k0 r ih =>
+    simp only [openAll] at h
+    split at h
+    · rename_i f rest hf hr
+      injection h with h; subst h
+      intro k hk
+      rcases List.mem_cons.mp hk with rfl | hk
+      · obtain ⟨h1, h2⟩ := openable_find _ _ _ hf
+        exact ⟨f, List.mem_cons_self .., h1, h2⟩
+      · obtain ⟨f', hm, h1, h2⟩ := ih _ hr k hk
+        exact ⟨f', List.mem_cons_of_mem _ hm, h1, h2⟩
+    · cases h
+
+/-- a segment is loaded only if every component file the templates need is present and complete -/
+theorem loadSeg_ok_complete (tpl : Tpl) (fs : FS) (id : Nat) (T : Shared)
+    (h : (loadSeg tpl fs id T).1 = true) : segComplete tpl fs id = true := by
+  unfold loadSeg at h
+  split at h
+  · cases h
+  · rename_i files hfiles
+    obtain ⟨_, hcuts⟩ := readAll_ok_cuts tpl files T false h
+    unfold segComplete
+    rw [List.all_eq_true]
+    intro k hk
+    obtain ⟨f, hm, hfind, hnh⟩ := openAll_spec _ _ _ _ hfiles k hk
+    obtain ⟨hnd, hnt⟩ := hcuts _ hm
+    rw [hfind]
+    simp only [decide_eq_true_eq]
+    cases hc : f.cut with
+    | full => rfl
+    | data => exact absurd hc hnd
+    | trailer => exact absurd hc hnt
+    | header => exact absurd hc hnh
+
 end Comet.Storage
